@@ -1456,6 +1456,37 @@ int32 matrixUpdateSession(ssl_t *ssl)
 
 /******************************************************************************/
 /*
+    The session ticket key list of a sslKeys_t may be shared by sessions that
+    run in different threads: all access to it must hold g_sessTicketLock.
+    These wrappers are for the TLS 1.3 ticket code that lives in other files.
+ */
+void matrixSslLockSessionTicketKeys(void)
+{
+    psLockMutex(&g_sessTicketLock);
+}
+
+void matrixSslUnlockSessionTicketKeys(void)
+{
+    psUnlockMutex(&g_sessTicketLock);
+}
+
+/* Are there any session ticket keys loaded? */
+psBool_t matrixSslHaveSessionTicketKeys(sslKeys_t *keys)
+{
+    psBool_t have;
+
+    if (keys == NULL)
+    {
+        return PS_FALSE;
+    }
+    psLockMutex(&g_sessTicketLock);
+    have = (keys->sessTickets != NULL) ? PS_TRUE : PS_FALSE;
+    psUnlockMutex(&g_sessTicketLock);
+    return have;
+}
+
+/******************************************************************************/
+/*
     Remove a named key from the list.
 
     NOTE: If this list can get very large the faster DLList API should be
